@@ -2,8 +2,14 @@
     The claim is correspondence-level: both implementations (freshly generated Go code; the interpreter
     internal/pure/onthefly driven through an add-only overlay harness) are compared on every input with the
     same executable model ([dec1]/[enc1] of Tl1/Tl1Model.v, family tl1) and with each other.  The model-level
-    content is C01's round trip; this file states what the two correspondences give together. *)
-From TLV Require Import Prim.PrimModel Tl1.Tl1Model Tl1.Tl1Proofs.
+    content is C01's round trip; the first part of this file states what the two correspondences give together.
+
+    Second part (family ofly): the interpreter has its OWN model, Ofly/OflyModel.v ([ocreate], [oread], [owrite]:
+    CreateValue, ReadTL1, WriteTL1 of internal/pure/onthefly transcribed with their in-place values, the
+    nat-argument stack, RepairMasks, sort()/compact of dictionaries), and the theorems below relate that model to
+    the model of the generated code for EVERY schema IR the interpreter can follow -- not by transitivity through
+    runs.  The correspondence run of lib/checks/C12.py ties [oread]/[owrite] to the real interpreter. *)
+From TLV Require Import Prim.PrimModel Tl1.Tl1Model Tl1.Tl1Proofs Ofly.OflyModel Ofly.OflyProofs.
 Open Scope N_scope.
 
 (** what the `rw1` operation observes: verdict, consumed length, re-written bytes *)
@@ -51,3 +57,137 @@ Print Assumptions C12_valid_input_reproduced.
 Example ex_outcome :
   rw1_model 5 true [TPrim PNat; TStruct 7 [mkField 0 true None []]] 1 false [7;0;0;0; 9;0;0;0] = OutOk 8 (Some [7;0;0;0; 9;0;0;0]).
 Proof. vm_compute. reflexivity. Qed.
+
+(** * The interpreter's own model against the generated code's model (family ofly) *)
+
+(** READER, instances that do not reach a dictionary ([df] flags such instances; [df_ok] checks that a flagged instance
+    is no dictionary and refers to flagged instances only).  For every well-formed schema IR [s] the interpreter can follow
+    ([ofly_ok]: unions referenced boxed, brackets bare, nat-argument counts and indices consistent with
+    len(NatParams()) [np], field references point to `#` fields) in which CreateValue terminates ([create_total]),
+    every instance [t], every nat-argument stack [st ++ ps] whose top [ps] are the instance's own arguments, every
+    byte string and every fuel: ReadTL1 on the fresh value CreateValue(t) never panics and returns exactly what the
+    generated reader without the length-sanity check returns at the same fuel -- same verdict (ok / unexpected EOF /
+    error / out of fuel), same wire value, same rest of the input; the value left behind is well typed and the
+    returned nat-argument stack still starts with the caller's stack. *)
+Theorem C12_interpreter_reader_equals_generated : forall s np cf df,
+  wf_schema s = true -> ofly_ok s np = true -> create_total cf s = true -> df_ok s df = true ->
+  forall fuel t bare st ps v0 b,
+    dfree df t = true -> ref_ok s t bare = true -> length ps = nparams np t -> ocreate cf s t = Some v0 ->
+    oread fuel cf s np t bare (st ++ ps) v0 b <> Some OPanic /\
+    oview (oread fuel cf s np t bare (st ++ ps) v0 b) = dec1 fuel false s t bare ps b /\
+    (forall k r na, oread fuel cf s np t bare (st ++ ps) v0 b = Some (OOk (k, r, na)) ->
+                    ktyped s t k = true /\ firstn (length (st ++ ps)) na = st ++ ps /\ (kdepth k <= fuel)%nat).
+Proof. exact ofly_read_exact. Qed.
+Print Assumptions C12_interpreter_reader_equals_generated.
+
+(** READER, every schema (dictionaries included): the two accept the same byte strings -- same verdict, same rest,
+    same fuel, no panic -- and the values agree everywhere outside arrays/dictionaries ([vsim]). *)
+Theorem C12_interpreter_reader_same_verdict : forall s np cf,
+  wf_schema s = true -> ofly_ok s np = true -> create_total cf s = true ->
+  forall fuel t bare st ps v0 b,
+    ref_ok s t bare = true -> length ps = nparams np t -> ocreate cf s t = Some v0 ->
+    oread fuel cf s np t bare (st ++ ps) v0 b <> Some OPanic /\
+    overdict (oread fuel cf s np t bare (st ++ ps) v0 b) = dverdict (dec1 fuel false s t bare ps b) /\
+    (forall k r na v r', oread fuel cf s np t bare (st ++ ps) v0 b = Some (OOk (k, r, na)) ->
+                         dec1 fuel false s t bare ps b = Some (Ok (v, r')) ->
+                         vsim (kabs k) v /\ ktyped s t k = true).
+Proof. exact ofly_read_verdict. Qed.
+Print Assumptions C12_interpreter_reader_same_verdict.
+
+(** The full statement (same VALUE for every schema) is false of the faithful models: on a duplicate dictionary key
+    the generated reader keeps the LAST entry (Go map assignment), the interpreter keeps the FIRST (stable sort, then
+    CompactFunc).  Witness: dictionary int -> int, wire = count 2, (5 -> 1), (5 -> 2).  Replayed on the real code:
+    generated `rw1 .. cases.testDictInt 0 0200000005000000010000000500000002000000` -> ok 20 010000000500000002000000,
+    interpreter -> ok 20 010000000500000001000000. *)
+Definition dup_schema : schema :=
+  [TPrim PInt; TStruct 7 [mkField 0 true None []; mkField 0 true None []]; TDict PInt (mkField 1 true None [])].
+Definition dup_input : bytes := [2;0;0;0; 5;0;0;0; 1;0;0;0; 5;0;0;0; 2;0;0;0].
+
+Theorem C12_interpreter_reader_dict_duplicate_key_refuted :
+  exists s np cf fuel t bare v0 b,
+    wf_schema s = true /\ ofly_ok s np = true /\ create_total cf s = true /\ ref_ok s t bare = true /\
+    ocreate cf s t = Some v0 /\
+    oview (oread fuel cf s np t bare [] v0 b) = Some (Ok (VArr [VStruct [Some (VNum 5); Some (VNum 1)]], [])) /\
+    dec1 fuel false s t bare [] b = Some (Ok (VArr [VStruct [Some (VNum 5); Some (VNum 2)]], [])).
+Proof.
+  exists dup_schema, [0; 0; 0]%nat, 4%nat, 5%nat, 2%nat, true, (KDict []), dup_input.
+  vm_compute. repeat split; reflexivity.
+Qed.
+Print Assumptions C12_interpreter_reader_dict_duplicate_key_refuted.
+
+(** All of the above is about the use C12 speaks of: ReadTL1 on a FRESH value from CreateValue.  (What ReadTL1 does to a
+    value that was read into before is outside this property; see the side observation
+    [Ofly_reader_reused_value_differs_observation] in Ofly/OflyProofs.v.) *)
+
+(** WRITER.  For every schema the interpreter can follow, every well-typed interpreter value [k] (the shape
+    CreateValue / ReadTL1 produce) of nesting depth within the fuel: whenever the generated writer accepts the wire
+    value held by [k] and writes [b], the interpreter's WriteTL1 writes exactly [b] (no panic, no RepairMasks
+    change), dictionaries included (a strictly sorted dictionary is left alone by sort()). *)
+Theorem C12_interpreter_writer_equals_generated : forall s np cf,
+  ofly_ok s np = true ->
+  forall fuel t bare st ps k b,
+    ktyped s t k = true -> (kdepth k <= fuel)%nat -> length ps = nparams np t ->
+    enc1 false s t bare ps (kabs k) = Some b ->
+    exists na', owrite fuel cf s np t bare (st ++ ps) k = Some (OOk (b, na')) /\ pre_ok st ps na'.
+Proof. intros s np cf Hok fuel. exact (owrite_sim s np cf Hok fuel). Qed.
+Print Assumptions C12_interpreter_writer_equals_generated.
+
+(** WHAT THE CORRESPONDENCE RUN OBSERVES (`rw1`: CreateValue, ReadTL1, WriteTL1 of what was read), top-level
+    instances that do not reach a dictionary: the interpreter's observation is the observation [rw1_model] of the generated
+    code without the length-sanity check -- same verdict, same consumed length, same re-written bytes.  Where the
+    generated writer refuses the value it has just read (never seen on a run), the interpreter still consumed the same. *)
+Theorem C12_interpreter_rw1_equals_generated : forall s np cf df,
+  wf_schema s = true -> ofly_ok s np = true -> create_total cf s = true -> df_ok s df = true ->
+  forall fuel t bare b, dfree df t = true -> ref_ok s t bare = true -> nparams np t = 0%nat ->
+    match rw1_model fuel false s t bare b with
+    | OutOk n (Some w) => orw1 fuel cf s np t bare b = ObsOk n (Some w)
+    | OutOk n None => exists r, orw1 fuel cf s np t bare b = ObsOk n r
+    | OutEof => orw1 fuel cf s np t bare b = ObsEof
+    | OutReject => orw1 fuel cf s np t bare b = ObsReject
+    | OutFuel => orw1 fuel cf s np t bare b = ObsFuel
+    end.
+Proof.
+  intros s np cf df Hwf Hok Hct Hdf fuel t bare b Hdt Href Hnp.
+  pose proof (ofly_rw1_exact s np cf df Hwf Hok Hct Hdf fuel t bare b Hdt Href Hnp) as H.
+  unfold rw1_model. destruct (dec1 fuel false s t bare [] b) as [[[v rest]| |]|]; exact H.
+Qed.
+Print Assumptions C12_interpreter_rw1_equals_generated.
+
+(** non-vacuity: a schema with a field mask, an external nat argument, a union and a tuple satisfies every
+    hypothesis; the interpreter model reads and re-writes a value of it, and agrees with the generated model *)
+Definition ex_schema : schema :=
+  [ TPrim PNat;                                                           (* 0: # *)
+    TPrim PString;                                                        (* 1: string *)
+    TArray ATupleDyn (mkField 1 true None []);                            (* 2: n*[string], one nat parameter *)
+    TStruct 11 [mkField 0 true None []; mkField 1 true (Some (NField 0, 1)) []; mkField 2 true None [NField 0]];   (* 3 *)
+    TStruct 21 [];                                                        (* 4: variant a *)
+    TStruct 22 [mkField 3 true None []];                                  (* 5: variant b *)
+    TUnion [4%nat; 5%nat] ].                                                      (* 6 *)
+Definition ex_np : list nat := [0; 0; 1; 0; 0; 0; 0]%nat.
+Definition ex_bytes : bytes := [22;0;0;0; 2;0;0;0; 1;97;0;0; 1;98;0;0; 1;99;0;0].
+
+Definition ex_df : list bool := [true; true; true; true; true; true; true].
+
+Example ex_ofly_hypotheses :
+  wf_schema ex_schema = true /\ ofly_ok ex_schema ex_np = true /\ create_total 8 ex_schema = true /\
+  df_ok ex_schema ex_df = true /\ dfree ex_df 6 = true /\ ref_ok ex_schema 6 false = true /\
+  (* a dictionary cannot be flagged: *) df_ok dup_schema [true; true; true] = false /\ df_ok dup_schema [true; true; false] = true.
+Proof. vm_compute. repeat split; reflexivity. Qed.
+
+Example ex_ofly_rw1 :
+  orw1 9 8 ex_schema ex_np 6 false ex_bytes = ObsOk 20 (Some ex_bytes) /\
+  rw1_model 9 false ex_schema 6 false ex_bytes = OutOk 20 (Some ex_bytes).
+Proof. vm_compute. split; reflexivity. Qed.
+
+Example ex_ofly_agrees :
+  match ocreate 8 ex_schema 6 with
+  | Some v0 => oview (oread 9 8 ex_schema ex_np 6 false [] v0 ex_bytes) = dec1 9 false ex_schema 6 false [] ex_bytes
+               /\ exists v r, dec1 9 false ex_schema 6 false [] ex_bytes = Some (Ok (v, r))
+  | None => False
+  end.
+Proof. vm_compute. split; [reflexivity|]. eexists; eexists; reflexivity. Qed.
+
+(** the interpreter model does panic outside [ofly_ok]: a bare reference to a union *)
+Example ex_ofly_bare_union_panics :
+  orw1 9 8 ex_schema ex_np 6 true ex_bytes = ObsPanic /\ ref_ok ex_schema 6 true = false.
+Proof. vm_compute. split; reflexivity. Qed.
